@@ -1,17 +1,30 @@
-// C07: merging batches is independent of order and grouping.  Executes programs of
-// Receive / Merge / MergeMaps over a register file of real MetricMaps; the same family of
-// batches is merged in several random orders and bracketings (one program each), every
-// program is compared with the model in lock-step order, and the results of the different
-// orders are compared with each other under the C07 projection by a harness monitor.
+// C07: merging batches is independent of order and grouping.
+//
+// Stream "prog": programs of Receive / Merge / MergeMaps over a register file of real
+// MetricMaps.  The same family of batches is merged in several random orders and bracketings
+// (one program each; some batches are received datapoint by datapoint into an intermediate
+// result instead of being merged as a map).  Every program is compared with the model in
+// lock-step order and, inside Coq, with the canonical merge of the leaves that flowed into
+// each live register under the C07 projection; the results of the different orders are also
+// compared with each other by a harness monitor.  Aliasing monitor: the source map of a Merge /
+// MergeMaps is re-read right after the call (must be unchanged) and again at the end of the
+// program (only set members may have grown: Go shares the member map).
+//
+// Stream "cons": the batches go through a real gostatsd.MetricConsolidator from concurrent
+// goroutines (ReceiveMetrics / ReceiveMetricMap) while another goroutine flushes; everything
+// drained is merged with MergeMaps.  Slot assignment and interleaving are up to the scheduler;
+// the result is compared under the C07 projection (Corr/C07.v `projects`).
 package main
 
 import (
 	"encoding/json"
 	"fmt"
-	"math"
 	"os"
+	"runtime"
 	"sort"
 	"strings"
+	"sync"
+	"time"
 
 	"github.com/atlassian/gostatsd"
 
@@ -20,23 +33,87 @@ import (
 )
 
 type op struct {
-	Op   string    `json:"op"` // recv | merge | mergemaps
-	R    int       `json:"r"`
-	From int       `json:"from,omitempty"`
-	Srcs []int     `json:"srcs,omitempty"`
-	Dp   *mmgen.Dp `json:"dp,omitempty"`
+	Op   string     `json:"op"` // recv | merge | mergemaps | bmap | bmetrics
+	R    int        `json:"r"`  // register; for bmap / bmetrics: worker index
+	From int        `json:"from,omitempty"`
+	Srcs []int      `json:"srcs,omitempty"`
+	Dp   *mmgen.Dp  `json:"dp,omitempty"`
+	Dps  []mmgen.Dp `json:"dps,omitempty"` // bmap / bmetrics: the batch
+	Jit  int        `json:"jit,omitempty"` // bmap / bmetrics: Gosched calls before delivering
 }
 
 type input struct {
-	NRegs  int  `json:"nregs"`
-	Ops    []op `json:"ops"`
-	Family int  `json:"family"` // programs with the same family id merge the same batches
+	Kind    string `json:"kind,omitempty"` // "" = prog | "cons"
+	NRegs   int    `json:"nregs,omitempty"`
+	Ops     []op   `json:"ops"`
+	Family  int    `json:"family,omitempty"` // programs with the same family id merge the same batches
+	Spots   int    `json:"spots,omitempty"`
+	Workers int    `json:"workers,omitempty"`
+	Flushes int    `json:"flushes,omitempty"` // flushes racing with the receivers (one more follows at the end)
+	Mode    int    `json:"mode,omitempty"`    // 0: MergeMaps over all drained maps; 1: MergeMaps per flush, then Merge of the results
 }
 
-// projection of C07: per series counter total, sorted timer values + sampled count, set members,
-// newest timestamp; for gauges the timestamp only (ties between equal timestamps are free) plus
-// the value when it is unambiguous.
-func project(mm *gostatsd.MetricMap, gaugeChoices map[string]map[uint64]bool) string {
+// ---------------------------------------------------------------------------------------
+// snapshots of source maps (aliasing monitor)
+
+type snapshot struct {
+	fixed string              // everything but set members
+	sets  map[string][]string // members per series
+}
+
+func takeSnap(mm *gostatsd.MetricMap) snapshot {
+	s := snapshot{sets: map[string][]string{}}
+	var el []string
+	mm.Counters.Each(func(n, k string, c gostatsd.Counter) {
+		el = append(el, fmt.Sprintf("c|%q|%q|%d|%d|%q|%q", n, k, c.Value, c.Timestamp, c.Source, c.Tags))
+	})
+	mm.Gauges.Each(func(n, k string, g gostatsd.Gauge) {
+		el = append(el, fmt.Sprintf("g|%q|%q|%x|%d|%q|%q", n, k, g.Value, g.Timestamp, g.Source, g.Tags))
+	})
+	mm.Timers.Each(func(n, k string, t gostatsd.Timer) {
+		el = append(el, fmt.Sprintf("t|%q|%q|%x|%x|%d|%q|%q", n, k, t.Values, t.SampledCount, t.Timestamp, t.Source, t.Tags))
+	})
+	mm.Sets.Each(func(n, k string, st gostatsd.Set) {
+		el = append(el, fmt.Sprintf("s|%q|%q|%d|%q|%q", n, k, st.Timestamp, st.Source, st.Tags))
+		var ms []string
+		for m := range st.Values {
+			ms = append(ms, m)
+		}
+		sort.Strings(ms)
+		s.sets[fmt.Sprintf("%q|%q", n, k)] = ms
+	})
+	sort.Strings(el)
+	s.fixed = strings.Join(el, "\n")
+	return s
+}
+
+// diff reports how now differs from the snapshot; exactSets = false tolerates grown member sets.
+func (s snapshot) diff(now snapshot, exactSets bool) string {
+	if s.fixed != now.fixed {
+		return "series changed:\n" + s.fixed + "\n--- now ---\n" + now.fixed
+	}
+	for k, old := range s.sets {
+		cur := map[string]bool{}
+		for _, m := range now.sets[k] {
+			cur[m] = true
+		}
+		for _, m := range old {
+			if !cur[m] {
+				return fmt.Sprintf("set %s lost member %q", k, m)
+			}
+		}
+		if exactSets && len(old) != len(now.sets[k]) {
+			return fmt.Sprintf("set %s members changed: %q -> %q", k, old, now.sets[k])
+		}
+	}
+	return ""
+}
+
+// ---------------------------------------------------------------------------------------
+// projection of C07 used by the cross-order monitor: per series counter total, sorted timer
+// values + sampled count, set members, newest timestamp; for gauges the timestamp only (the
+// value is checked against the candidate leaves inside Coq).
+func project(mm *gostatsd.MetricMap) string {
 	var el []string
 	mm.Counters.Each(func(n, k string, c gostatsd.Counter) {
 		el = append(el, fmt.Sprintf("c|%q|%q|%d|%d", n, k, c.Value, c.Timestamp))
@@ -63,44 +140,99 @@ func project(mm *gostatsd.MetricMap, gaugeChoices map[string]map[uint64]bool) st
 
 var familyProjection = map[int]string{}
 
-func runOne(em *hlib.Emitter, in input, final int) {
+type consumed struct {
+	at   int
+	mm   *gostatsd.MetricMap
+	snap snapshot
+}
+
+func runProg(em *hlib.Emitter, in input, final int) {
 	regs := make([]*gostatsd.MetricMap, in.NRegs)
 	dead := make([]bool, in.NRegs)
 	for i := range regs {
 		regs[i] = gostatsd.NewMetricMap(false)
 	}
-	c := hlib.Case{Input: in, Class: fmt.Sprintf("ops<=%d", (len(in.Ops)/20+1)*20)}
+	c := hlib.Case{Input: in, Class: fmt.Sprintf("prog ops<=%d", (len(in.Ops)/20+1)*20)}
 	var ops []string
+	var sources []consumed
+	okReg := func(i int) bool { return i >= 0 && i < in.NRegs }
+	nmerge, nlate := 0, 0
 	msg := hlib.Recover(func() {
-		for _, o := range in.Ops {
+		for at, o := range in.Ops {
 			switch o.Op {
 			case "recv":
+				// an op that touches a dead register (possible only in shrunk programs) is skipped:
+				// the map shares storage with the map it was merged into
+				if !okReg(o.R) || dead[o.R] || o.Dp == nil {
+					continue
+				}
+				if nmerge > 0 {
+					nlate++
+				}
 				regs[o.R].Receive(o.Dp.Metric())
 				ops = append(ops, hlib.App("ORecv", hlib.Nat(o.R), o.Dp.Coq()))
 			case "merge":
+				if !okReg(o.R) || !okReg(o.From) || dead[o.R] || dead[o.From] || o.R == o.From {
+					continue
+				}
+				before := takeSnap(regs[o.From])
 				regs[o.R].Merge(regs[o.From])
+				if d := before.diff(takeSnap(regs[o.From]), true); d != "" {
+					c.Monitors = append(c.Monitors, fmt.Sprintf("op %d: Merge changed its source map: %s", at, d))
+				}
+				sources = append(sources, consumed{at, regs[o.From], before})
 				dead[o.From] = true
+				nmerge++
 				ops = append(ops, hlib.App("OMerge", hlib.Nat(o.R), hlib.Nat(o.From)))
 			case "mergemaps":
 				var ms []*gostatsd.MetricMap
 				var ss []string
+				var snaps []snapshot
+				skip := !okReg(o.R)
+				seen := map[int]bool{}
+				for _, s := range o.Srcs {
+					if !okReg(s) || dead[s] || seen[s] {
+						skip = true
+					}
+					seen[s] = true
+				}
+				if skip {
+					continue
+				}
 				for _, s := range o.Srcs {
 					ms = append(ms, regs[s])
-					dead[s] = true
+					snaps = append(snaps, takeSnap(regs[s]))
 					ss = append(ss, hlib.Nat(s))
 				}
+				var res *gostatsd.MetricMap
 				if len(ms) > 0 {
-					regs[o.R] = gostatsd.MergeMaps(ms)
+					res = gostatsd.MergeMaps(ms)
 				} else {
-					regs[o.R] = gostatsd.NewMetricMap(false)
+					res = gostatsd.NewMetricMap(false)
 				}
+				for i, s := range o.Srcs {
+					// MergeMaps shares the first source's member maps with the result and then adds the
+					// later sources' members to them: a source may have grown, nothing else
+					if d := snaps[i].diff(takeSnap(regs[s]), false); d != "" {
+						c.Monitors = append(c.Monitors, fmt.Sprintf("op %d: MergeMaps changed source %d: %s", at, s, d))
+					}
+					sources = append(sources, consumed{at, regs[s], snaps[i]})
+					dead[s] = true
+				}
+				regs[o.R] = res
 				dead[o.R] = false
+				nmerge++
 				ops = append(ops, hlib.App("OMergeMaps", hlib.Nat(o.R), hlib.List(ss)))
 			}
 		}
 	})
 	if msg != "" {
 		c.Monitors = append(c.Monitors, "merge panicked: "+msg)
+	}
+	for _, s := range sources {
+		if d := s.snap.diff(takeSnap(s.mm), false); d != "" {
+			c.Monitors = append(c.Monitors, fmt.Sprintf("source map of op %d changed after it was merged (aliasing): %s", s.at, d))
+		}
 	}
 	var obs []string
 	nseries := 0
@@ -111,9 +243,9 @@ func runOne(em *hlib.Emitter, in input, final int) {
 		}
 	}
 	c.Coq = hlib.App("C07", hlib.Nat(in.NRegs), hlib.List(ops), hlib.List(obs))
-	c.Nontrivial = nseries >= 2 && len(in.Ops) >= 6
+	c.Nontrivial = nseries >= 2 && len(ops) >= 6
 	if final >= 0 && in.Family != 0 {
-		p := project(regs[final], nil)
+		p := project(regs[final])
 		if prev, ok := familyProjection[in.Family]; ok {
 			if prev != p {
 				c.Monitors = append(c.Monitors, "two merge orders of the same batches disagree under the C07 projection:\n"+prev+"\n--- vs ---\n"+p)
@@ -122,43 +254,260 @@ func runOne(em *hlib.Emitter, in input, final int) {
 			familyProjection[in.Family] = p
 		}
 	}
-	c.Obs = map[string]int{"live_series": nseries}
+	c.Obs = map[string]int{"live_series": nseries, "merges": nmerge, "late_receives": nlate, "sources_reread": len(sources)}
 	em.Emit(c)
+}
+
+// ---------------------------------------------------------------------------------------
+// consolidator stream
+
+func runCons(em *hlib.Emitter, in input) {
+	c := hlib.Case{Input: in, Class: fmt.Sprintf("cons spots=%d workers=%d flushes=%d mode=%d", in.Spots, in.Workers, in.Flushes, in.Mode)}
+	if in.Spots < 1 {
+		in.Spots = 1
+	}
+	if in.Workers < 1 {
+		in.Workers = 1
+	}
+	type prepared struct {
+		o       op
+		mm      *gostatsd.MetricMap
+		snap    snapshot
+		metrics []*gostatsd.Metric
+	}
+	var batches []string
+	perWorker := make([][]*prepared, in.Workers)
+	var all []*prepared
+	ndp := 0
+	for _, o := range in.Ops {
+		p := &prepared{o: o}
+		var ds []string
+		for _, d := range o.Dps {
+			ds = append(ds, d.Coq())
+		}
+		switch o.Op {
+		case "bmap":
+			p.mm = mmgen.Build(o.Dps)
+			p.snap = takeSnap(p.mm)
+			batches = append(batches, hlib.App("BMap", hlib.List(ds)))
+		case "bmetrics":
+			for _, d := range o.Dps {
+				p.metrics = append(p.metrics, d.Metric())
+			}
+			batches = append(batches, hlib.App("BMetrics", hlib.List(ds)))
+		default:
+			continue
+		}
+		ndp += len(o.Dps)
+		w := o.R % in.Workers
+		if w < 0 {
+			w = 0
+		}
+		perWorker[w] = append(perWorker[w], p)
+		all = append(all, p)
+	}
+	sink := make(chan []*gostatsd.MetricMap, in.Flushes+2)
+	var drained [][]*gostatsd.MetricMap
+	var mu sync.Mutex
+	var panics []string
+	guard := func(f func()) {
+		if m := hlib.Recover(f); m != "" {
+			mu.Lock()
+			panics = append(panics, m)
+			mu.Unlock()
+		}
+	}
+	var merged *gostatsd.MetricMap
+	done := make(chan struct{})
+	go func() {
+		defer close(done)
+		guard(func() {
+			mc := gostatsd.NewMetricConsolidator(in.Spots, false, time.Hour, sink)
+			var wg sync.WaitGroup
+			for w := range perWorker {
+				wg.Add(1)
+				go func(ps []*prepared) {
+					defer wg.Done()
+					guard(func() {
+						for _, p := range ps {
+							for i := 0; i < p.o.Jit; i++ {
+								runtime.Gosched()
+							}
+							if p.mm != nil {
+								mc.ReceiveMetricMap(p.mm)
+							} else {
+								mc.ReceiveMetrics(p.metrics)
+							}
+						}
+					})
+				}(perWorker[w])
+			}
+			// Flush is documented as not thread-safe with respect to other flushes: one flusher
+			fl := make(chan struct{})
+			go func() {
+				defer close(fl)
+				guard(func() {
+					for f := 0; f < in.Flushes; f++ {
+						for i := 0; i < 1+f%3; i++ {
+							runtime.Gosched()
+						}
+						mc.Flush()
+					}
+				})
+			}()
+			wg.Wait()
+			<-fl
+			mc.Flush()
+			close(sink)
+			for ms := range sink {
+				drained = append(drained, ms)
+			}
+			switch in.Mode {
+			case 1:
+				for _, ms := range drained {
+					part := gostatsd.MergeMaps(ms)
+					if merged == nil {
+						merged = part
+					} else {
+						merged.Merge(part)
+					}
+				}
+			default:
+				var flat []*gostatsd.MetricMap
+				for _, ms := range drained {
+					flat = append(flat, ms...)
+				}
+				merged = gostatsd.MergeMaps(flat)
+			}
+		})
+	}()
+	select {
+	case <-done:
+	case <-time.After(20 * time.Second):
+		c.Monitors = append(c.Monitors, "consolidator run did not finish within 20 s (deadlock)")
+		c.Coq = ""
+		em.Emit(c)
+		return
+	}
+	for _, m := range panics {
+		c.Monitors = append(c.Monitors, "consolidator run panicked: "+m)
+	}
+	for i, ms := range drained {
+		if len(ms) != in.Spots {
+			c.Monitors = append(c.Monitors, fmt.Sprintf("flush %d drained %d maps, the consolidator has %d slots", i, len(ms), in.Spots))
+		}
+	}
+	if len(drained) != in.Flushes+1 {
+		c.Monitors = append(c.Monitors, fmt.Sprintf("%d flushes delivered, %d issued", len(drained), in.Flushes+1))
+	}
+	for i, p := range all {
+		if p.mm != nil {
+			if d := p.snap.diff(takeSnap(p.mm), false); d != "" {
+				c.Monitors = append(c.Monitors, fmt.Sprintf("batch %d: map changed after ReceiveMetricMap (aliasing): %s", i, d))
+			}
+		}
+	}
+	if merged == nil {
+		merged = gostatsd.NewMetricMap(false)
+	}
+	c.Coq = hlib.App("C07Cons", hlib.List(batches), mmgen.Entries(merged))
+	n := mmgen.Size(merged)
+	c.Nontrivial = n >= 2 && len(all) >= 3
+	c.Obs = map[string]int{"live_series": n, "batches": len(all), "datapoints": ndp, "flushes": len(drained)}
+	em.Emit(c)
+}
+
+// ---------------------------------------------------------------------------------------
+// generators
+
+// genBatches draws k batches over a small universe.  Most datapoints hit one of a few "hot"
+// series (same name, tags, source and type; fresh value / timestamp / member / rate), so that
+// the same series occurs in several batches and every per-type merge rule is exercised.
+func genBatches(r *hlib.Rand, kLo, kHi, nHi int) [][]mmgen.Dp {
+	u := mmgen.NewUniverse(r, r.Range(1, 4), r.Range(1, 3), r.Range(0, 1))
+	hot := make([]mmgen.Dp, r.Range(2, 5))
+	for i := range hot {
+		hot[i] = u.Dp(r, 100, 104)
+	}
+	draw := func() mmgen.Dp {
+		d := u.Dp(r, 100, 104) // few distinct timestamps: ties happen
+		if r.Chance(3, 4) {
+			t := hot[r.Intn(len(hot))]
+			for try := 0; try < 12 && d.Type != t.Type; try++ {
+				d = u.Dp(r, 100, 104)
+			}
+			if d.Type == t.Type {
+				d.Name, d.Source = t.Name, t.Source
+				d.Tags = append([]string{}, t.Tags...)
+				if r.Chance(1, 3) && len(d.Tags) > 1 { // same tags key, other tag order
+					d.Tags[0], d.Tags[len(d.Tags)-1] = d.Tags[len(d.Tags)-1], d.Tags[0]
+				}
+			}
+		}
+		return d
+	}
+	k := r.Range(kLo, kHi)
+	batches := make([][]mmgen.Dp, k)
+	for i := range batches {
+		n := r.Range(0, nHi)
+		for j := 0; j < n; j++ {
+			batches[i] = append(batches[i], draw())
+		}
+	}
+	return batches
 }
 
 // genFamily draws k batches of datapoints and returns several programs that merge them into
 // register 0 in different orders / bracketings.
 func genFamily(r *hlib.Rand, fam int) []input {
-	u := mmgen.NewUniverse(r, r.Range(1, 4), r.Range(1, 3), r.Range(0, 1))
-	k := r.Range(2, 5)
-	batches := make([][]mmgen.Dp, k)
-	for i := range batches {
-		n := r.Range(0, 8)
-		for j := 0; j < n; j++ {
-			d := u.Dp(r, 100, 104) // few distinct timestamps: ties happen
-			batches[i] = append(batches[i], d)
-		}
-	}
+	batches := genBatches(r, 2, 5, 8)
+	k := len(batches)
 	var out []input
 	nprog := r.Range(2, 3)
 	for p := 0; p < nprog; p++ {
 		// registers 1..k hold the batches (built by Receive in batch order), then a random
-		// bracketing merges them pairwise; the last surviving register is moved to 0 by MergeMaps
+		// bracketing merges them pairwise; the last surviving register is moved to 0 by MergeMaps.
+		// A "late" batch has no register of its own: its datapoints are received one by one into
+		// an intermediate result (a Recv node of the merge tree).
 		in := input{NRegs: k + 2, Family: fam}
+		late := make([]bool, k)
+		nown := 0
+		for i := range batches {
+			late[i] = r.Chance(1, 4)
+			if !late[i] {
+				nown++
+			}
+		}
+		if nown == 0 {
+			late[r.Intn(k)] = false
+		}
+		live := []int{}
+		var pending []int
 		for i, b := range batches {
+			if late[i] {
+				pending = append(pending, i)
+				continue
+			}
 			for _, d := range b {
 				dd := d
 				in.Ops = append(in.Ops, op{Op: "recv", R: i + 1, Dp: &dd})
 			}
+			live = append(live, i+1)
 		}
-		live := []int{}
-		for i := 1; i <= k; i++ {
-			live = append(live, i)
-		}
-		// shuffle
 		for i := len(live) - 1; i > 0; i-- {
 			j := r.Intn(i + 1)
 			live[i], live[j] = live[j], live[i]
+		}
+		flushLate := func(all bool) {
+			for len(pending) > 0 && (all || r.Chance(1, 2)) {
+				b := batches[pending[0]]
+				pending = pending[1:]
+				dst := live[r.Intn(len(live))]
+				for _, d := range b {
+					dd := d
+					in.Ops = append(in.Ops, op{Op: "recv", R: dst, Dp: &dd})
+				}
+			}
 		}
 		for len(live) > 1 {
 			switch r.Intn(3) {
@@ -180,15 +529,29 @@ func genFamily(r *hlib.Rand, fam int) []input {
 				in.Ops = append(in.Ops, op{Op: "mergemaps", R: srcs[0], Srcs: []int{spare}})
 				live = append([]int{srcs[0]}, rest...)
 			}
+			flushLate(false)
 		}
+		flushLate(true)
 		in.Ops = append(in.Ops, op{Op: "mergemaps", R: 0, Srcs: []int{live[0]}})
 		out = append(out, in)
 	}
 	return out
 }
 
+func genCons(r *hlib.Rand) input {
+	batches := genBatches(r, 3, 12, 6)
+	in := input{Kind: "cons", Spots: r.Range(1, 5), Workers: r.Range(1, 6), Flushes: r.Range(0, 3), Mode: r.Intn(2)}
+	for _, b := range batches {
+		o := op{Op: "bmap", R: r.Intn(in.Workers), Dps: b, Jit: r.Intn(4)}
+		if r.Bool() {
+			o.Op = "bmetrics"
+		}
+		in.Ops = append(in.Ops, o)
+	}
+	return in
+}
+
 func main() {
-	_ = math.Pi
 	a := hlib.ParseArgs()
 	em := hlib.NewEmitter()
 	defer em.Close()
@@ -197,8 +560,13 @@ func main() {
 		r := hlib.NewRand(a.Seed)
 		fam := 1
 		for n := 0; n < a.N; {
+			if r.Chance(1, 6) {
+				runCons(em, genCons(r))
+				n++
+				continue
+			}
 			for _, in := range genFamily(r, fam) {
-				runOne(em, in, 0)
+				runProg(em, in, 0)
 				n++
 			}
 			fam++
@@ -210,8 +578,12 @@ func main() {
 				fmt.Fprintln(os.Stderr, "bad input:", err)
 				os.Exit(2)
 			}
+			if in.Kind == "cons" {
+				runCons(em, in)
+				continue
+			}
 			in.Family = 0
-			runOne(em, in, -1)
+			runProg(em, in, -1)
 		}
 	}
 }
